@@ -651,6 +651,14 @@ def main():
         src = emit_contract_fixture(fx)
         put(fx["mod"] + ".rs", src + "\n")
         mods.append((fx["mod"], fx["feature"]))
+    for fx in [fx_reply(), fx_reply(True), fx_reply_typed(), fx_reply_order("a"), fx_reply_order("b"), fx_data()]:
+        src = emit_reply_fixture(fx)
+        put(fx["mod"] + ".rs", src + "\n")
+        mods.append((fx["mod"], fx["feature"]))
+    for fx in ep_fixtures():
+        src = emit_ep_fixture(fx)
+        put(fx["mod"] + ".rs", src + "\n")
+        mods.append((fx["mod"], fx["feature"]))
     t = "//! GENERATED by kani/gen_fixtures.py — do not edit.\n"
     for m, feat in mods:
         t += "#[cfg(feature = \"%s\")]\npub mod %s;\n" % (feat, m)
@@ -660,6 +668,493 @@ def main():
         if f not in written:
             os.remove(os.path.join(OUT, f))
     print("generated %d fixtures, %d harnesses, %d T obligations" % (len(mods), len(HARNESSES), len(T_OBLIGATIONS)))
+
+
+
+
+# ====================================================================== reply fixtures (C07, C08, C09, C14)
+DATA_MODES = {
+    # mode -> (attribute, parameter type)
+    "raw": ("#[sv::data(raw)]", "Binary"),
+    "raw_opt": ("#[sv::data(raw, opt)]", "Option<Binary>"),
+    "typed": ("#[sv::data]", "u64"),
+    "opt": ("#[sv::data(opt)]", "Option<u64>"),
+    "inst": ("#[sv::data(instantiate)]", "cw_utils::MsgInstantiateContractResponse"),
+    "inst_opt": ("#[sv::data(instantiate, opt)]", "Option<cw_utils::MsgInstantiateContractResponse>"),
+}
+
+
+class R:
+    """one reply method"""
+    def __init__(self, name, on, handlers=None, data=None, payload="raw", h=None):
+        self.name, self.on, self.handlers, self.data, self.payload, self.h = name, on, handlers, data, payload, h
+
+
+def reply_method_src(r):
+    attr = "#[sv::msg(reply%s, reply_on=%s)]" % ((", handlers=[%s]" % ", ".join(r.handlers)) if r.handlers else "", r.on)
+    params = []
+    body = ["let mut o = Obs::new(%d);" % r.h, "o.args[0] = ctx.gas_used;", "o.args[1] = ctx.events.len() as u64;", "o.args[2] = ctx.msg_responses.len() as u64;", "o.height = ctx.env.block.height;",
+            "ctx.deps.storage.set(b\"k\", &[%d]);" % r.h]
+    if r.on == "success":
+        if r.data:
+            a, t = DATA_MODES[r.data]
+            params.append("%s data: %s" % (a, t))
+            if r.data == "raw":
+                body += ["o.args[5] = 1;", "o.args[6] = data.len() as u64;", "o.args[7] = if data.len() > 0 { data.as_slice()[0] as u64 } else { 0 };"]
+            elif r.data == "raw_opt":
+                body += ["match &data { Some(d) => { o.args[5] = 1; o.args[6] = d.len() as u64; o.args[7] = if d.len() > 0 { d.as_slice()[0] as u64 } else { 0 }; } None => { o.args[5] = 0; } }"]
+            elif r.data == "typed":
+                body += ["o.args[5] = 1;", "o.args[6] = data;"]
+            elif r.data == "opt":
+                body += ["match data { Some(d) => { o.args[5] = 1; o.args[6] = d; } None => { o.args[5] = 0; } }"]
+            elif r.data == "inst":
+                body += ["o.args[5] = 1;", "o.args[6] = data.contract_address.len() as u64;"]
+            elif r.data == "inst_opt":
+                body += ["match &data { Some(d) => { o.args[5] = 1; o.args[6] = d.contract_address.len() as u64; } None => { o.args[5] = 0; } }"]
+    elif r.on == "error":
+        params.append("error: String")
+        body += ["o.args[5] = error.len() as u64;", "o.args[6] = if error.len() > 0 { error.as_bytes()[0] as u64 } else { 0 };"]
+    else:
+        params.append("result: SubMsgResult")
+        body += ["o.args[5] = match &result { SubMsgResult::Ok(_) => 1, SubMsgResult::Err(e) => 2 + e.len() as u64 };"]
+    if r.payload == "raw":
+        params.append("#[sv::payload(raw)] payload: Binary")
+        body += ["o.args[3] = payload.len() as u64;", "o.args[4] = if payload.len() > 0 { payload.as_slice()[0] as u64 } else { 0 };", "o.extra = if payload.len() > 1 { payload.as_slice()[1] as u64 } else { 0 };"]
+    else:
+        for k, t in enumerate(r.payload):
+            params.append("p%d: %s" % (k, t))
+            body.append("o.args[%d] = p%d as u64;" % (8 + k, k))
+    body.append("Err(Echo::H(o))")
+    return "    %s\n    fn %s(&self, ctx: ReplyCtx%s) -> Result<Response, Echo> {\n            %s\n    }" % (
+        attr, r.name, "".join(", " + p for p in params), "\n            ".join(body))
+
+
+def reply_table(rs):
+    """handler name -> dict(id, succ, err, always) in declaration order (ids = index in the de-duplicated table)"""
+    table = []
+    for r in rs:
+        for hn in (r.handlers or [r.name]):
+            e = next((t for t in table if t["name"] == hn), None)
+            if e is None:
+                e = dict(name=hn, succ=None, err=None, always=None, payload=r.payload)
+                table.append(e)
+            e[{"success": "succ", "error": "err", "always": "always"}[r.on]] = r
+    return table
+
+
+REPLY_PRE = """        let mut s = S(Cell::new(77)); let a = A(Cell::new(0)); let q = Q(Cell::new(0));
+        let deps = DepsMut { storage: &mut s, api: &a, querier: QuerierWrapper::<Empty>::new(&q) };
+        let gas: u64 = kani::any(); let h: u64 = kani::any();
+        let pb: [u8; 2] = kani::any();"""
+
+
+def reply_harness(fx, e, outcome, hname, props, tier, data_case=None):
+    """dispatch_reply postcondition for one declared handler name and one outcome (concrete id, symbolic gas/payload/events)"""
+    c = fx["contract"]
+    const = "sv::%s_REPLY_ID" % e["name"].upper()
+    lines = [REPLY_PRE]
+    if outcome == "ok":
+        # one event, concrete: a symbolic number of heap-allocated events makes CBMC run out of memory
+        lines.append("        let ne: u8 = 1;")
+        lines.append("        let evs = vec![Event::new(\"e\")];")
+        lines.append("        let with_data: bool = kani::any(); let db: u8 = kani::any();")
+        lines.append("        #[allow(deprecated)]")
+        lines.append("        let result = SubMsgResult::Ok(SubMsgResponse { events: evs, data: if with_data { Some(Binary::new(vec![db])) } else { None }, msg_responses: vec![] });")
+    else:
+        lines.append("        let el: u8 = kani::any(); kani::assume(el <= 2); let ec: u8 = kani::any(); kani::assume(ec < 128);")
+        lines.append("        let mut es = String::new(); let mut i = 0; while i < el { es.push(ec as char); i += 1; }")
+        lines.append("        let result = SubMsgResult::Err(es);")
+    lines.append("        let r = core::mem::ManuallyDrop::new(sv::dispatch_reply(deps, env(h), Reply { id: %s, payload: Binary::new(pb.to_vec()), gas_used: gas, result }, %s::new()));" % (const, c))
+    m = (e["succ"] or e["always"]) if outcome == "ok" else (e["err"] or e["always"])
+    if m is not None:
+        lines.append("        match &*r {")
+        lines.append("            Err(Echo::H(o)) => {")
+        lines.append("                assert!(o.h == %d);" % m.h)
+        lines.append("                assert!(o.args[0] == gas && o.height == h);")
+        lines.append("                assert!(o.args[3] == 2 && o.args[4] == pb[0] as u64 && o.extra == pb[1] as u64);")
+        if m.on == "success":
+            lines.append("                assert!(o.args[1] == ne as u64 && o.args[2] == 0);")
+            if m.data == "raw_opt":
+                lines.append("                if with_data { assert!(o.args[5] == 1 && o.args[6] == 1 && o.args[7] == db as u64); } else { assert!(o.args[5] == 0); }")
+        elif m.on == "error":
+            lines.append("                assert!(o.args[1] == 0 && o.args[2] == 0);")
+            lines.append("                assert!(o.args[5] == el as u64 && (el == 0 || o.args[6] == ec as u64));")
+        else:
+            lines.append("                assert!(o.args[1] == 0 && o.args[2] == 0);")
+            lines.append("                assert!(o.args[5] == %s);" % ("1" if outcome == "ok" else "2 + el as u64"))
+        lines.append("            }")
+        lines.append("            _ => assert!(false),")
+        lines.append("        }")
+        lines.append("        assert!(s.0.get() == %d);" % m.h)
+        clause = "reply id of `%s`, sub-message %s: the method declared for %s runs with gas_used, %s, raw payload byte for byte" % (
+            e["name"], "succeeded" if outcome == "ok" else "failed", m.on, "events and msg_responses" if m.on == "success" else ("the error text" if m.on == "error" else "the full result"))
+    else:
+        if outcome == "ok":
+            lines.append("        match &*r {")
+            lines.append("            Ok(resp) => {")
+            lines.append("                assert!(resp.events.len() == ne as usize && resp.messages.is_empty() && resp.attributes.is_empty());")
+            lines.append("                match &resp.data { Some(d) => assert!(with_data && d.as_slice().len() == 1 && d.as_slice()[0] == db), None => assert!(!with_data) }")
+            lines.append("            }")
+            lines.append("            _ => assert!(false),")
+            lines.append("        }")
+            clause = "reply id of `%s`, success with no success/always method: answered as if no reply had been requested (events and data passed through), no handler ran" % e["name"]
+        else:
+            lines.append("        match &*r { Err(Echo::Std) => {}, _ => assert!(false) }")
+            clause = "reply id of `%s`, failure with no error/always method: that error is returned, no handler ran" % e["name"]
+        lines.append("        assert!(s.0.get() == 77);")
+    lines.append("        kani::cover!(true, \"end of harness reachable\");")
+    body = "\n    #[kani::proof]\n    #[kani::unwind(5)]\n    %s\n    fn %s() {\n%s\n    }\n" % (STUBS, hname, "\n".join(lines))
+    reg(hname, fx["feature"], props, tier, clause, fx["mod"])
+    return body
+
+
+def unknown_id_harness(fx, n, hname, props, tier):
+    c = fx["contract"]
+    body = ""
+    for oc, res in (("ok", "SubMsgResult::Ok(SubMsgResponse { events: vec![], data: None, msg_responses: vec![] })"), ("err", "SubMsgResult::Err(String::new())")):
+        body += """
+    #[kani::proof]
+    #[kani::unwind(5)]
+    %s
+    fn %s_%s() {
+%s
+        let id: u64 = kani::any(); kani::assume(id >= %d);
+        #[allow(deprecated)]
+        let result = %s;
+        let r = core::mem::ManuallyDrop::new(sv::dispatch_reply(deps, env(h), Reply { id, payload: Binary::new(pb.to_vec()), gas_used: gas, result }, %s::new()));
+        match &*r { Err(Echo::Std) => {}, _ => assert!(false) }
+        assert!(s.0.get() == 77);
+        kani::cover!(true, "end of harness reachable");
+    }
+""" % (STUBS, hname, oc, REPLY_PRE, n, res, c)
+        reg("%s_%s" % (hname, oc), fx["feature"], props, tier, "every id >= %d (belonging to no handler), sub-message %s: an error, and no handler runs" % (n, "succeeded" if oc == "ok" else "failed"), fx["mod"])
+    return body
+
+
+def submsg_harness(fx, e, receiver, hname, props, tier):
+    """C08: builder stamps id, reply_on, keeps message (and gas limit for SubMsg), raw payload byte for byte"""
+    on = "Always" if (e["always"] or (e["succ"] and e["err"])) else ("Success" if e["succ"] else "Error")
+    lines = ["        let pb: [u8; 2] = kani::any();"]
+    if receiver == "submsg":
+        lines.append("        let id0: u64 = kani::any(); let gl: Option<u64> = kani::any();")
+        lines.append("        let base: SubMsg<Empty> = SubMsg { id: id0, payload: Binary::default(), msg: CosmosMsg::Bank(BankMsg::Burn { amount: vec![] }), gas_limit: gl, reply_on: ReplyOn::Never };")
+        keep = "CosmosMsg::Bank(BankMsg::Burn { amount })"
+        gas = "sub.gas_limit == gl"
+    elif receiver == "wasm":
+        lines.append("        let base = WasmMsg::ClearAdmin { contract_addr: String::new() };")
+        keep = "CosmosMsg::Wasm(WasmMsg::ClearAdmin { contract_addr })"
+        gas = "sub.gas_limit.is_none()"
+    else:
+        lines.append("        let base: CosmosMsg<Empty> = CosmosMsg::Bank(BankMsg::Burn { amount: vec![] });")
+        keep = "CosmosMsg::Bank(BankMsg::Burn { amount })"
+        gas = "sub.gas_limit.is_none()"
+    lines.append("        let r: StdResult<SubMsg<Empty>> = sv::SubMsgMethods::<Empty>::%s(base, Binary::new(pb.to_vec()));" % e["name"])
+    lines.append("        let r = core::mem::ManuallyDrop::new(r);")
+    lines.append("        match &*r {")
+    lines.append("            Ok(sub) => {")
+    lines.append("                assert!(sub.id == sv::%s_REPLY_ID);" % e["name"].upper())
+    lines.append("                assert!(matches!(sub.reply_on, ReplyOn::%s));" % on)
+    lines.append("                assert!(%s);" % gas)
+    lines.append("                assert!(matches!(&sub.msg, %s));" % keep.replace("{ amount }", "{ .. }").replace("{ contract_addr }", "{ .. }"))
+    lines.append("                assert!(sub.payload.as_slice().len() == 2 && sub.payload.as_slice()[0] == pb[0] && sub.payload.as_slice()[1] == pb[1]);")
+    lines.append("            }")
+    lines.append("            Err(_) => assert!(false),")
+    lines.append("        }")
+    lines.append("        kani::cover!(true, \"end of harness reachable\");")
+    body = "\n    #[kani::proof]\n    #[kani::unwind(5)]\n    %s\n    fn %s() {\n%s\n    }\n" % (STUBS, hname, "\n".join(lines))
+    reg(hname, fx["feature"], props, tier, "SubMsgMethods::%s on a %s: id = %s_REPLY_ID, reply_on = %s, message kept, %s, raw payload byte for byte" % (
+        e["name"], receiver, e["name"].upper(), on, "gas limit kept" if receiver == "submsg" else "gas limit None"), fx["mod"])
+    return body
+
+
+def data_harness(fx, e, m, case, hname, props, tier):
+    """C09: one cell of data mode x {absent, present}; present = 2 symbolic bytes for raw modes, a non-protobuf envelope (0xff) for decoded modes"""
+    c = fx["contract"]
+    const = "sv::%s_REPLY_ID" % e["name"].upper()
+    lines = [REPLY_PRE]
+    mode = m.data
+    if case == "absent":
+        lines.append("        let data: Option<Binary> = None;")
+    elif mode in ("raw", "raw_opt", None):
+        lines.append("        let db: [u8; 2] = kani::any();")
+        lines.append("        let data: Option<Binary> = Some(Binary::new(db.to_vec()));")
+    else:
+        lines.append("        let data: Option<Binary> = Some(Binary::new(vec![0xff]));")
+    lines.append("        #[allow(deprecated)]")
+    lines.append("        let result = SubMsgResult::Ok(SubMsgResponse { events: vec![], data, msg_responses: vec![] });")
+    lines.append("        let r = core::mem::ManuallyDrop::new(sv::dispatch_reply(deps, env(h), Reply { id: %s, payload: Binary::new(pb.to_vec()), gas_used: gas, result }, %s::new()));" % (const, c))
+    runs = None
+    if mode is None:
+        runs = "assert!(o.args[5] == 0);"
+        clause = "no data parameter: the handler runs whatever the data"
+    elif case == "absent":
+        if mode.endswith("opt"):
+            runs = "assert!(o.args[5] == 0);"
+            clause = "mode %s, data absent: the handler receives None" % mode
+        else:
+            clause = "mode %s, data absent: missing-data error, handler not invoked" % mode
+    else:
+        if mode == "raw":
+            runs = "assert!(o.args[5] == 1 && o.args[6] == 2 && o.args[7] == db[0] as u64);"
+            clause = "mode raw: the bytes are passed through"
+        elif mode == "raw_opt":
+            runs = "assert!(o.args[5] == 1 && o.args[6] == 2 && o.args[7] == db[0] as u64);"
+            clause = "mode raw,opt: Some(bytes) passed through"
+        else:
+            clause = "mode %s, data not a response envelope: error, handler not invoked" % mode
+    if runs is not None:
+        lines.append("        match &*r { Err(Echo::H(o)) => { assert!(o.h == %d && o.args[0] == gas); %s } _ => assert!(false) }" % (m.h, runs))
+        lines.append("        assert!(s.0.get() == %d);" % m.h)
+    else:
+        lines.append("        match &*r { Err(Echo::Std) => {}, _ => assert!(false) }")
+        lines.append("        assert!(s.0.get() == 77);")
+    lines.append("        kani::cover!(true, \"end of harness reachable\");")
+    body = "\n    #[kani::proof]\n    #[kani::unwind(24)]\n    %s\n    fn %s() {\n%s\n    }\n" % (STUBS, hname, "\n".join(lines))
+    reg(hname, fx["feature"], props, tier, clause, fx["mod"])
+    return body
+
+
+def emit_reply_fixture(fx):
+    rs = fx["replies"]
+    c = fx["contract"]
+    out = ["//! GENERATED by kani/gen_fixtures.py — do not edit.  Reply fixture `%s`." % fx["mod"],
+           "#![allow(unused_imports, unused_variables, dead_code, deprecated, clippy::all)]", "use crate::support::*;",
+           "use cosmwasm_std::{Response, StdError, Binary, Empty, SubMsgResult};", "use sylvia::ctx::{InstantiateCtx, ReplyCtx};", "",
+           "pub struct %s;" % c, ""]
+    if fx.get("entry_points"):
+        out.append("#[sylvia::entry_points]")
+    out += ["#[sylvia::contract]", "#[sv::error(Echo)]", "#[sv::features(replies)]", "impl %s {" % c, "    pub const fn new() -> Self { %s }" % c,
+            "    #[sv::msg(instantiate)]", "    fn instantiate(&self, _ctx: InstantiateCtx) -> Result<Response, Echo> { Err(Echo::Std) }"]
+    for r in rs:
+        out.append(reply_method_src(r))
+    out.append("}")
+    out.append("")
+    out.append("#[cfg(kani)]")
+    out.append("pub mod proofs {")
+    out.append("    use super::*;")
+    out.append("    use cosmwasm_std::{Addr, DepsMut, QuerierWrapper, Env, Reply, SubMsgResponse, Event, SubMsg, CosmosMsg, BankMsg, WasmMsg, ReplyOn, StdResult};")
+    out.append("    use std::cell::Cell;")
+    table = reply_table(rs)
+    mod = fx["mod"]
+    tier = fx.get("tier", "quick")
+    px = ["C14"] if fx.get("perm_of") else []
+    if fx.get("dispatch", True):
+        for e in table:
+            if e["payload"] != "raw":
+                continue
+            for outcome in ("ok", "err"):
+                m = (e["succ"] or e["always"]) if outcome == "ok" else (e["err"] or e["always"])
+                if m is not None and m.on == "success" and m.data not in (None, "raw_opt"):
+                    continue   # data modes are exercised by the C09 fixture
+                out.append(reply_harness(fx, e, outcome, "c07_%s_%s_%s" % (mod, e["name"], outcome), ["C07"] + px, tier))
+        out.append(unknown_id_harness(fx, len(table), "c07_%s_unknown_id" % mod, ["C07"] + px, tier))
+    if fx.get("submsg", True):
+        for e in table:
+            if e["payload"] != "raw":
+                continue
+            for recv in ("submsg", "wasm", "cosmos"):
+                out.append(submsg_harness(fx, e, recv, "c08_%s_%s_%s" % (mod, e["name"], recv), ["C08"] + px, tier if recv == "submsg" else "thorough"))
+    if fx.get("data_cells"):
+        for e in table:
+            m = e["succ"]
+            for case in ("absent", "present"):
+                out.append(data_harness(fx, e, m, case, "c09_%s_%s_%s" % (mod, e["name"], case), ["C09"], tier if case == "absent" or m.data in ("raw", "raw_opt", None) else "thorough"))
+    # T: ids pairwise distinct, and equal to the index in the de-duplicated table (declaration order)
+    out += ["", "    #[allow(unused)]", "    fn t_obligations_%s() {" % mod]
+    conds = []
+    for i, a in enumerate(table):
+        for b in table[i + 1:]:
+            conds.append("sv::%s_REPLY_ID != sv::%s_REPLY_ID" % (a["name"].upper(), b["name"].upper()))
+    name = "%s.T.reply_ids_distinct" % mod
+    T_OBLIGATIONS.append(dict(name=name, feature=fx["feature"], props=["C08"] + px, fixture=mod, tier=tier))
+    out.append("        // T-BEGIN %s" % name)
+    out.append("        const _: () = assert!(%s);" % (" && ".join(conds) or "true"))
+    out.append("        // T-END %s" % name)
+    name = "%s.T.accepted" % mod
+    T_OBLIGATIONS.append(dict(name=name, feature=fx["feature"], props=["C14"] if fx.get("perm_of") or fx.get("order_twin") else ["C07"], fixture=mod, tier=tier))
+    out.append("        // T-BEGIN %s  (the fixture as a whole is accepted by the macros)" % name)
+    out.append("        let _ = %s::new();" % c)
+    out.append("        // T-END %s" % name)
+    if fx.get("entry_points"):
+        name = "%s.T.ep_reply_signature" % mod
+        T_OBLIGATIONS.append(dict(name=name, feature=fx["feature"], props=["C06"], fixture=mod, tier=tier))
+        out.append("        // T-BEGIN %s" % name)
+        out.append("        let _: fn(DepsMut, Env, Reply) -> Result<Response, Echo> = entry_points::reply;")
+        out.append("        // T-END %s" % name)
+    out.append("    }")
+    if fx.get("entry_points"):
+        e = table[0]
+        out.append(reply_harness(dict(fx, ep=True), e, "err" if e["err"] or e["always"] else "ok", "c06_%s_ep_reply" % mod, ["C06"], tier).replace(
+            "sv::dispatch_reply(deps, env(h), Reply {", "entry_points::reply(deps, env(h), Reply {").replace(", %s::new()));" % c, "));"))
+    out.append("}")
+    return "\n".join(out)
+
+
+def fx_reply(perm=False):
+    rs = [
+        R("h_succ", "success", data="raw_opt"),
+        R("h_err", "error"),
+        R("b_succ", "success", handlers=["both"]),
+        R("b_err", "error", handlers=["both"]),
+        R("h_always", "always"),
+        R("multi", "success", handlers=["m_one", "m_two"], data="raw_opt"),
+    ]
+    for k, r in enumerate(rs):
+        r.h = k + 1
+    if perm:
+        rs = list(reversed(rs))
+    return dict(mod="fx_reply_perm" if perm else "fx_reply", feature="g_reply_perm" if perm else "g_reply", contract="ReplyP" if perm else "ReplyC", replies=rs, entry_points=True,
+                perm_of="fx_reply" if perm else None, tier="quick")
+
+
+def fx_reply_typed():
+    # typed (JSON) payloads: only type-level and builder-side obligations are in reach (from_json is not)
+    rs = [R("typed_one", "success", payload=["u64"]), R("typed_two", "error", payload=["u64", "u32"])]
+    rs[0].h, rs[1].h = 1, 2
+    return dict(mod="fx_reply_typed", feature="g_reply", contract="ReplyT", replies=rs, tier="quick", dispatch=False)
+
+
+def fx_reply_order(which):
+    # success-with-data and error under one handler name, in both declaration orders (DESIGN.md §5 item 3)
+    rs = [R("o_succ", "success", handlers=["ord"], data="raw_opt"), R("o_err", "error", handlers=["ord"])]
+    rs[0].h, rs[1].h = 1, 2
+    if which == "b":
+        rs = list(reversed(rs))
+    return dict(mod="fx_reply_ord_" + which, feature="g_reply_ord_" + which, contract="Ord" + which.upper(), replies=rs, order_twin=True, tier="quick", submsg=(which == "a"))
+
+
+def fx_data():
+    rs = [R("d_" + m, "success", data=m) for m in DATA_MODES] + [R("d_none", "success")]
+    for k, r in enumerate(rs):
+        r.h = k + 1
+    return dict(mod="fx_data", feature="g_data", contract="DataC", replies=rs, tier="quick", dispatch=False, submsg=False, data_cells=True)
+
+
+
+# ====================================================================== entry-point fixtures (C06)
+EP_KINDS = ["instantiate", "exec", "query", "sudo", "migrate", "reply"]
+EP_FN = {"instantiate": "instantiate", "exec": "execute", "query": "query", "sudo": "sudo", "migrate": "migrate", "reply": "reply"}
+EP_SIG = {
+    "instantiate": "fn(DepsMut, Env, MessageInfo, sv::InstantiateMsg) -> Result<Response, Echo>",
+    "exec": "fn(DepsMut, Env, MessageInfo, sv::ContractExecMsg) -> Result<Response, Echo>",
+    "query": "fn(Deps, Env, sv::ContractQueryMsg) -> Result<Binary, Echo>",
+    "sudo": "fn(DepsMut, Env, sv::ContractSudoMsg) -> Result<Response, Echo>",
+    "migrate": "fn(DepsMut, Env, sv::MigrateMsg) -> Result<Response, Echo>",
+    "reply": "fn(DepsMut, Env, Reply) -> Result<Response, Echo>",
+}
+OV_PARAMS = {
+    "instantiate": "deps: DepsMut, env: Env, info: MessageInfo, msg: OvMsg", "exec": "deps: DepsMut, env: Env, info: MessageInfo, msg: OvMsg",
+    "query": "deps: Deps, env: Env, msg: OvMsg", "sudo": "deps: DepsMut, env: Env, msg: OvMsg", "migrate": "deps: DepsMut, env: Env, msg: OvMsg",
+    "reply": "deps: DepsMut, env: Env, msg: Reply",
+}
+
+
+def emit_ep_fixture(fx):
+    mod, c = fx["mod"], fx["contract"]
+    ov = fx["override"]
+    has = dict(migrate=fx.get("migrate", True), reply=fx.get("reply", True))
+    out = ["//! GENERATED by kani/gen_fixtures.py — do not edit.  Entry-point fixture `%s`: overridden = %s, migrate handler %s, reply handler %s." % (mod, ov or "none", has["migrate"], has["reply"]),
+           "#![allow(unused_imports, unused_variables, dead_code, deprecated, clippy::all)]", "use crate::support::*;",
+           "use cosmwasm_std::{Response, StdError, Binary, Empty, Deps, DepsMut, Env, MessageInfo, Reply, SubMsgResult};",
+           "use sylvia::ctx::{ExecCtx, InstantiateCtx, MigrateCtx, QueryCtx, SudoCtx, ReplyCtx};", "",
+           "pub mod ov {", "    use super::*;",
+           "    #[derive(serde::Serialize, serde::Deserialize, Clone, Debug, PartialEq, schemars::JsonSchema)]", "    pub struct OvMsg {}"]
+    for k in ov:
+        ret = "Result<Binary, Echo>" if k == "query" else "Result<Response, Echo>"
+        out.append("    pub fn %s(%s) -> %s { Err(Echo::Std) }" % (EP_FN[k], OV_PARAMS[k], ret))
+    out += ["}", "", "pub struct %s;" % c, "", "#[sylvia::entry_points]", "#[sylvia::contract]", "#[sv::error(Echo)]", "#[sv::features(replies)]"]
+    for k in ov:
+        out.append("#[sv::override_entry_point(%s=ov::%s(%s))]" % (k, EP_FN[k], "ov::OvMsg" if k != "reply" else "cosmwasm_std::Reply"))
+    out += ["impl %s {" % c, "    pub const fn new() -> Self { %s }" % c]
+
+    def handler(kind, name, h, extra=""):
+        ctx = {"instantiate": "InstantiateCtx", "exec": "ExecCtx", "query": "QueryCtx", "sudo": "SudoCtx", "migrate": "MigrateCtx", "reply": "ReplyCtx"}[kind]
+        ret = "Result<u64, Echo>" if kind == "query" else "Result<Response, Echo>"
+        store = "ctx.deps.storage.set(b\"k\", &[%d]);" % h if kind != "query" else "let _ = ctx.deps.storage.get(&[%d]);" % h
+        attr = "#[sv::msg(%s)]" % kind if kind != "reply" else "#[sv::msg(reply, reply_on=error)]"
+        params = ", a: u64" if kind != "reply" else ", error: String, #[sv::payload(raw)] payload: Binary"
+        arg = "o.args[0] = a;" if kind != "reply" else "o.args[0] = ctx.gas_used;"
+        return "    %s\n    fn %s(&self, ctx: %s%s) -> %s {\n        %s\n        let mut o = Obs::new(%d); %s o.height = ctx.env.block.height;\n        Err(Echo::H(o))\n    }" % (attr, name, ctx, params, ret, store, h, arg)
+    out.append(handler("instantiate", "instantiate", 1))
+    out.append(handler("exec", "do_exec", 2))
+    out.append(handler("query", "do_query", 3))
+    out.append(handler("sudo", "do_sudo", 4))
+    if has["migrate"]:
+        out.append(handler("migrate", "migrate", 5))
+    if has["reply"]:
+        out.append(handler("reply", "on_reply", 6))
+    out += ["}", "", "// fallback names for the absence probes: with two glob imports a name is ambiguous (an error) iff both modules define it",
+            "pub mod fallback {", "    pub fn instantiate() -> u8 { 0 }", "    pub fn execute() -> u8 { 0 }", "    pub fn query() -> u8 { 0 }", "    pub fn sudo() -> u8 { 0 }",
+            "    pub fn migrate() -> u8 { 0 }", "    pub fn reply() -> u8 { 0 }", "}", "", "#[cfg(kani)]", "pub mod proofs {", "    use super::*;",
+            "    use cosmwasm_std::{Addr, QuerierWrapper};", "    use std::cell::Cell;"]
+    tier = fx.get("tier", "quick")
+    present = [k for k in EP_KINDS if k not in ov and (k not in has or has[k])]
+    absent = [k for k in EP_KINDS if k not in present]
+    out += ["", "    #[allow(unused)]", "    fn t_obligations_%s() {" % mod]
+    for k in present:
+        name = "%s.T.ep_%s_present" % (mod, k)
+        T_OBLIGATIONS.append(dict(name=name, feature=fx["feature"], props=["C06"], fixture=mod, tier=tier))
+        out.append("        // T-BEGIN %s" % name)
+        out.append("        let _: %s = entry_points::%s;" % (EP_SIG[k], EP_FN[k]))
+        out.append("        // T-END %s" % name)
+    for k in absent:
+        name = "%s.T.ep_%s_absent" % (mod, k)
+        T_OBLIGATIONS.append(dict(name=name, feature=fx["feature"], props=["C06"], fixture=mod, tier=tier))
+        out.append("        // T-BEGIN %s" % name)
+        out.append("        { use super::entry_points::*; use super::fallback::*; let _: fn() -> u8 = %s; }" % EP_FN[k])
+        out.append("        // T-END %s" % name)
+    out.append("    }")
+    # forwarding of every remaining entry point
+    for k in present:
+        hn = {"instantiate": 1, "exec": 2, "query": 3, "sudo": 4, "migrate": 5, "reply": 6}[k]
+        hname = "c06_%s_fwd_%s" % (mod, k)
+        mut = k != "query"
+        deps = ("let deps = DepsMut { storage: &mut s, api: &a, querier: QuerierWrapper::<Empty>::new(&q) };" if mut else "let deps = Deps { storage: &s, api: &a, querier: QuerierWrapper::<Empty>::new(&q) };")
+        if k == "reply":
+            msg = "Reply { id: sv::ON_REPLY_REPLY_ID, payload: Binary::default(), gas_used: x, result: SubMsgResult::Err(String::new()) }"
+            call = "entry_points::reply(deps, env(h), msg)"
+        else:
+            lit = {"instantiate": "sv::InstantiateMsg { a: x }", "exec": "{ let w: sv::ContractExecMsg = sv::ExecMsg::DoExec { a: x }.into(); w }", "query": "{ let w: sv::ContractQueryMsg = sv::QueryMsg::DoQuery { a: x }.into(); w }",
+                   "sudo": "{ let w: sv::ContractSudoMsg = sv::SudoMsg::DoSudo { a: x }.into(); w }", "migrate": "sv::MigrateMsg { a: x }"}[k]
+            msg = lit
+            call = "entry_points::%s(deps, env(h), %smsg)" % (EP_FN[k], "info(1), " if k in HAS_INFO else "")
+        body = """
+    #[kani::proof]
+    #[kani::unwind(5)]
+    %s
+    fn %s() {
+        let mut s = S(Cell::new(77)); let a = A(Cell::new(0)); let q = Q(Cell::new(0));
+        let h: u64 = kani::any(); let x: u64 = kani::any();
+        %s
+        let msg = %s;
+        let r = core::mem::ManuallyDrop::new(%s);
+        match &*r { Err(Echo::H(o)) => assert!(o.h == %d && o.args[0] == x && o.height == h), _ => assert!(false) }
+        assert!(s.0.get() == %d);
+        kani::cover!(true, "end of harness reachable");
+    }
+""" % (STUBS, hname, deps, msg, call, hn, hn if mut else 1000 + hn)
+        reg(hname, fx["feature"], ["C06"], tier, "with %s overridden, the generated %s entry point still builds the contract with new(), dispatches and returns the outcome" % (ov or "nothing", k), mod)
+        out.append(body)
+    out.append("}")
+    return "\n".join(out)
+
+
+def ep_fixtures():
+    fxs = []
+
+    def add(tag, ov, tier, **kw):
+        fxs.append(dict(mod="fx_ep_" + tag, feature="g_ep", contract="Ep" + tag.title().replace("_", ""), override=ov, tier=tier, **kw))
+    add("none", [], "quick")
+    add("exec", ["exec"], "quick")
+    add("query", ["query"], "quick")
+    add("migrate", ["migrate"], "quick")
+    add("all", list(EP_KINDS), "quick")
+    add("instantiate", ["instantiate"], "thorough")
+    add("sudo", ["sudo"], "thorough")
+    add("reply", ["reply"], "thorough")
+    add("plain", [], "quick", migrate=False, reply=False)
+    add("exec_sudo", ["exec", "sudo"], "thorough")
+    return fxs
 
 
 if __name__ == "__main__":
